@@ -463,7 +463,10 @@ func init() {
 		seen := map[string]bool{}
 		for _, sc := range chk.Scenarios {
 			sc.Depth--
-			rep := engine.Explore(sc, engine.Options{Workers: 1})
+			rep := engine.Explore(sc, engine.Options{Workers: 1, Deadline: SubDeadlineTime()})
+			if !rep.Exhaustive {
+				r.Truncated = true
+			}
 			r.Cases += int(rep.Histories)
 			r.Steps += int(rep.Transitions)
 			for _, f := range rep.Found {
